@@ -24,75 +24,6 @@ import (
 	"github.com/privacybydesign/gabi/revocation"
 )
 
-// ---- issuer world ---------------------------------------------------------------------------
-
-type c11World struct {
-	k      *vfKey
-	accs   []*revocation.Accumulator
-	events []*revocation.Event
-	times  []int64 // current (possibly refreshed) time per accumulator index
-}
-
-const c11Base = 1_800_000_000
-
-func c11NewWorld(k *vfKey) *c11World {
-	upd, err := revocation.NewAccumulator(k.Sk)
-	if err != nil {
-		panic(err)
-	}
-	acc := upd.SignedAccumulator.Accumulator
-	acc.Time = c11Base
-	return &c11World{k: k, accs: []*revocation.Accumulator{acc}, events: []*revocation.Event{upd.Events[0]}, times: []int64{c11Base}}
-}
-
-func (w *c11World) last() int { return len(w.accs) - 1 }
-
-func (w *c11World) revoke(e *big.Int) {
-	acc, ev, err := w.accs[w.last()].Remove(w.k.Sk, e, w.events[w.last()])
-	if err != nil {
-		panic(err)
-	}
-	acc.Time = c11Base + int64(len(w.accs))*10
-	w.accs, w.events, w.times = append(w.accs, acc), append(w.events, ev), append(w.times, acc.Time)
-}
-
-// update returns an update message with events from..last (from > last: no events) for the
-// current (possibly refreshed) latest accumulator.
-func (w *c11World) update(from int) *revocation.Update {
-	acc := *w.accs[w.last()]
-	acc.Time = w.times[w.last()]
-	var evs []*revocation.Event
-	if from <= w.last() {
-		evs = append(evs, w.events[from:]...)
-	} else {
-		evs = []*revocation.Event{}
-	}
-	u, err := revocation.NewUpdate(w.k.Sk, &acc, evs)
-	if err != nil {
-		panic(err)
-	}
-	return u
-}
-
-func (w *c11World) issue(secret *big.Int, attrs []*big.Int, eIdx int) *Credential {
-	wit, err := revocation.RandomWitness(w.k.Sk, w.accs[w.last()])
-	if err != nil {
-		panic(err)
-	}
-	acc := *w.accs[w.last()]
-	acc.Time = w.times[w.last()]
-	sacc, err := (&acc).Sign(w.k.Sk)
-	if err != nil {
-		panic(err)
-	}
-	wit.SignedAccumulator = sacc
-	wit.Updated = time.Unix(acc.Time, 0)
-	all := append(append([]*big.Int{}, attrs...), wit.E)
-	c := vfMint(w.k, secret, all, eIdx)
-	c.NonRevocationWitness = wit
-	return c
-}
-
 // c11VerifyMany verifies a proof n times through fresh JSON copies (the verdict of an ambiguous
 // proof depends on Go's map iteration order); returns how often it was accepted.
 func c11VerifyMany(pk *gabikeys.PublicKey, p *ProofD, n int) int {
@@ -261,15 +192,6 @@ func TestVerifC11Histories(t *testing.T) {
 		rec()
 		env.Restore()
 	}
-}
-
-func vfRevPrime(i int) *big.Int {
-	// primes well inside the revocation attribute range
-	v := new(big.Int).Add(vfPow2(150), vfInt(int64(i)*1000))
-	for !v.Go().ProbablyPrime(20) {
-		v.Add(v, vfInt(1))
-	}
-	return v
 }
 
 // ---- (b) adversarial part ---------------------------------------------------------------------
